@@ -44,6 +44,15 @@ BUDGET = {"quick": (600, 80), "thorough": (6000, 1500)}
 REQUIRED_PROBES = {"quick": ["wf_tile_fits_tan", "wf_study", "history_reuse", "history_override"],
                    "thorough": ["wf_tile_fits_tan", "wf_tile_fits_toast", "toast_inputs_of_different_scale", "wf_study", "wf_allsky", "wf_pipeline", "wf_cli_study", "wf_cli_wwtl", "history_reuse", "history_override", "scheme_LXY"]}
 CHUNK = 3
+
+
+def coverage_guard(extra, probes, n):
+    """A first call that raises is 'not evaluated' (Correction 6); if that becomes the rule rather than the exception the
+    generator is producing inputs toasty cannot handle and the check is looking at nothing (it happened: round 5 to 7)."""
+    skipped = extra.get("first_call_raised_not_evaluated", 0)
+    if n >= 100 and skipped > 0.15 * n:
+        return ["%d of %d histories ended with 'first call raised - not evaluated'" % (skipped, n)]
+    return []
 SELFTEST_EVERY = 30
 FRESH_SELFTEST = 3
 
